@@ -229,9 +229,19 @@ def call(ip, name, args, kw):
         return to_obj_array([a[i, i] for i in range(min(a.shape))])
     if name == "isscalar":
         return not isinstance(args[0], (np.ndarray, list, tuple))
+    if name in ("isfinite", "isnan", "isinf") and not isinstance(args[0], (np.ndarray, list, tuple)):
+        a = args[0]
+        if a is None:
+            return False
+        sa = S(a)
+        if name == "isinf":
+            return sa in (sp.oo, -sp.oo)
+        if name == "isnan":
+            return sa is sp.nan
+        return not (sa in (sp.oo, -sp.oo) or sa is sp.nan)   # symbols stand for finite data
     if name in ("isfinite", "isnan", "isinf", "iscomplexobj", "isrealobj", "allclose", "isclose", "array_equal"):
-        if name == "isfinite" and not isinstance(args[0], np.ndarray) and S(args[0]).is_number:
-            return bool(S(args[0]).is_finite)
+        if name in ("isfinite", "isnan", "isinf") and isinstance(args[0], np.ndarray):
+            return np.array([call(ip, name, [x], {}) for x in args[0].ravel()], dtype=bool).reshape(args[0].shape)
         return sp.Function(name)(*[S(a) for a in args if not isinstance(a, (np.ndarray, list, tuple))])
     if name == "isscalar":
         return not isinstance(args[0], (np.ndarray, list, tuple))
@@ -249,6 +259,16 @@ def call(ip, name, args, kw):
         from .kpe import SymObj
         return SymObj(None, {"eps": sp.Rational(1, 2 ** 52), "tiny": sp.Rational(1, 2 ** 1022), "max": sp.oo,
                              "resolution": sp.Rational(1, 10 ** 15)}, "finfo")
+    if name == "ix_":
+        return np.ix_(*[[as_int(x) for x in a] for a in args])
+    if name == "isinf":
+        a = args[0]
+        if a is None:
+            return False
+        sa = S(a)
+        return sa in (sp.oo, -sp.oo)
+    if name == "sign" and not isinstance(args[0], np.ndarray):
+        return sp.sign(S(args[0]))
     if name == "searchsorted":
         a = to_obj_array(args[0]).ravel()
         v = args[1]
